@@ -474,9 +474,16 @@ package frugal
 //@   modifies *
 
 // The free function Clone does the same for any FContext.
+// Clone of any FContext: a context that can clone itself is asked to, once; every other context gets a new
+// FContextImpl over copies of its headers whose op id is a fresh one.
 //@ func lib.Clone(ctx)
 //@   locals fctxWEP, ok, clone
 //@   ensures result != nil
+//@   ensures ncalls("lib.FContextImpl.Clone") <= 1
+//@   ensures ncalls("lib.FContextImpl.Clone") == 1 ==> ncalls("lib.getNextOpID") == 0 && result == callret("lib.FContextImpl.Clone", 0, 0)
+//@   ensures ncalls("lib.FContextImpl.Clone") == 0 ==> ncalls("lib.getNextOpID") == 1
+//@   ensures ncalls("lib.FContextImpl.Clone") == 0 ==> ncalls("lib.FContext.RequestHeaders") == 1 && ncalls("lib.FContext.ResponseHeaders") == 1
+//@   ensures ncalls("lib.FContextImpl.Clone") == 0 && ncalls("lib.getNextOpID") == 1 ==> clone.requestHeaders == callret("lib.FContext.RequestHeaders", 0, 0) && clone.responseHeaders == callret("lib.FContext.ResponseHeaders", 0, 0) && clone.requestHeaders["_opid"] == callret("lib.getNextOpID", 0, 0)
 //@   modifies *
 
 // Mutators change exactly one entry of one map of the receiver, under the write lock, and return the
